@@ -42,6 +42,8 @@ def _one(job):
         return {"function": cname, "mutant": label, "detected": False, "attach_error": str(e)}
     except Unsupported as e:
         return {"function": cname, "mutant": label, "detected": False, "error": str(e)}
+    except Exception as e:   # noqa  - the engine itself failed on the rewritten code
+        return {"function": cname, "mutant": label, "detected": False, "error": "engine error: " + repr(e)[:200]}
     jobs = []
     for oi, o in enumerate(cx.obls):
         qf = None if smt.has_quant(o.goal) else smt.to_smt2([], o.hyps, o.goal, qf_only=True)
